@@ -273,6 +273,25 @@ def exBinv : Matrix (Fin 2) (Fin 2) GQ := !![⟨3/5, 0⟩, ⟨4/5, 0⟩; ⟨-4/5
 def exCfg : Cfg GQ :=
   { small := fun z => decide (GQ.normSq z ≤ 1 / 10 ^ 12), ignoreId := true, usePerm := true }
 
+/-- The per-component hypothesis of `inversion_wrap` cannot be dropped (this is how the pinned `BS.inverse`,
+which does not exchange the phases it should — property C11, DESIGN.md §10 item 1 — breaks `inverse_h`/`inverse_v`
+decompositions): with a component-level `inverse` that leaves the matrix unchanged, the circuit returned for a
+rational rotation `U` has matrix `U⁻¹ ≠ U`. -/
+theorem inversion_wrap_needs_component_inverse :
+    ¬ (∀ (inv : (k : ℕ) → Matrix (Fin k) (Fin k) GQ → Matrix (Fin k) (Fin k) GQ) (ls : List (Leaf GQ))
+        (U Uinv : Matrix (Fin 2) (Fin 2) GQ), Fits 2 ls → Uinv * U = 1 →
+        prodLeaves 2 ls = preProcess false true U Uinv →
+        prodLeaves 2 (inverseCircuit false true 2 inv ls) = U) := by
+  intro h
+  have hfit : Fits 2 [((0 : ℕ), (⟨2, exBinv⟩ : Σ k, Matrix (Fin k) (Fin k) GQ))] := by
+    intro l hl
+    simp only [List.mem_singleton] at hl
+    subst hl
+    decide
+  have := h (fun _ B => B) [(0, ⟨2, exBinv⟩)] exB exBinv hfit (by decide +kernel) (by decide +kernel)
+  revert this
+  decide +kernel
+
 /-- the hypotheses of `triangle_reconstruct` (and of the two corollaries) are satisfiable: a 2-mode rotation,
 one good solver result; the run succeeds, the final `u` is the identity (a diagonal), nothing non-zero is
 overwritten and exactly one block is produced -/
